@@ -27,7 +27,9 @@ CAT = {0: {'its available': [0, 4], 'var available': ['alpha', 'betaup3', 'gamma
        'overall': {}}
 POOL = [dict(it=[0], vars=['betax'], rl=0), dict(it=[0, 2], vars=['betaup3'], rl=0), dict(it=[2, 4, 6], vars=['betaup3', 'alpha'], rl=0),
         dict(it=[6, 0], vars=['alpha'], rl=0), dict(it=[4], vars=['betay'], rl=1), dict(it=[2, 4], vars=['betaup3'], rl=1),
-        dict(it=[0, 2], vars=['betax'], rl=0, split_per_it=False), dict(it=[8, 2], vars=['gammadown3'], rl=0), dict(it=[2], vars=['gxx', 'alpha'], rl=0)]
+        dict(it=[0, 2], vars=['betax'], rl=0, split_per_it=False), dict(it=[8, 2], vars=['gammadown3'], rl=0), dict(it=[2], vars=['gxx', 'alpha'], rl=0),
+        dict(it=[4], vars=['betax'], rl=0), dict(it=[0, 2, 4, 6, 8], vars=['gammadown3'], rl=0), dict(it=[6], vars=['gxx'], rl=0),
+        dict(it=[6], vars=['betay'], rl=0), dict(it=[8, 4, 6], vars=['betaup3'], rl=0)]
 
 
 def latest(it):
@@ -139,25 +141,33 @@ def native_replay(o=None):
     import aurel
     from engine import etgen
     bad = []
+    seqs = [[dict(it=[0], vars=['betax']), dict(it=[0, 2], vars=['betaup3']), dict(it=[2, 4, 6], vars=['betaup3', 'alpha']), dict(it=[0, 2, 4], vars=['betaup3'])],
+            # one component cached at an INTERIOR iteration of a later, wider request (then read again from the cache)
+            [dict(it=[6], vars=['betay']), dict(it=[8, 4, 6], vars=['betaup3']), dict(it=[4, 6, 8], vars=['betaup3']), dict(it=[8], vars=['betay'])]]
     for layout in (('onefile', 'grouped'), ('onefile', 'ungrouped'), ('proc', 'grouped')):
-        root = tempfile.mkdtemp(prefix='c12_')
-        try:
-            truth = etgen.make_sim(root, 'sim', layout, restarts=[(0, [0, 2, 4], 0), (1, [4, 6], 1)], shape=(5, 4, 3), cuts=(2, 1, 1),
-                                   ghost=2, rls=(0,), variables=('alp', 'betax', 'betay', 'betaz'))
-            p = etgen.param_for(root, 'sim')
-            seq = [dict(it=[0], vars=['betax']), dict(it=[0, 2], vars=['betaup3']), dict(it=[2, 4, 6], vars=['betaup3', 'alpha']), dict(it=[0, 2, 4], vars=['betaup3'])]
-            latest_ = {0: 0, 2: 0, 4: 1, 6: 1}
-            for req in seq:
-                d = aurel.read_data(p, verbose=False, skip_last=False, rl=0, **req)
-                for av in scalars(req['vars']):
-                    ev = {'alpha': 'alp'}.get(av, av)
-                    for j, it in enumerate(sorted(req['it'])):
-                        if d[av][j] is None or not np.array_equal(d[av][j], truth[(ev, it, 0, latest_[it])]):
-                            bad.append(f'layout {layout}, after {seq[:seq.index(req) + 1]}: {av} at it={it} is wrong')
-        except Exception as e:
-            bad.append(f'layout {layout}: raised {type(e).__name__}: {e}')
-        finally:
-            shutil.rmtree(root, ignore_errors=True)
+        for seq in seqs:
+            root = tempfile.mkdtemp(prefix='c12_')
+            try:
+                truth = etgen.make_sim(root, 'sim', layout, restarts=[(0, [0, 2, 4], 0), (1, [4, 6, 8], 1)], shape=(5, 4, 3), cuts=(2, 1, 1),
+                                       ghost=2, rls=(0,), variables=('alp', 'betax', 'betay', 'betaz'))
+                p = etgen.param_for(root, 'sim')
+                latest_ = {0: 0, 2: 0, 4: 1, 6: 1, 8: 1}
+                for qi, req in enumerate(seq):
+                    d = aurel.read_data(p, verbose=False, skip_last=False, rl=0, **req)
+                    for av in scalars(req['vars']):
+                        ev = {'alpha': 'alp'}.get(av, av)
+                        for j, it in enumerate(sorted(req['it'])):
+                            if d[av][j] is None or not np.array_equal(d[av][j], truth[(ev, it, 0, latest_[it])]):
+                                bad.append(f'layout {layout}, after the calls {seq[:qi + 1]}: {av} at it={it} is not the stored data'
+                                           + ('' if d[av][j] is None else f' (it is the data of it={[i for i in latest_ if np.array_equal(d[av][j], truth[(ev, i, 0, latest_[i])])]})'))
+            except Exception as e:
+                bad.append(f'layout {layout}: raised {type(e).__name__}: {e}')
+            finally:
+                shutil.rmtree(root, ignore_errors=True)
+            if bad:
+                break
+        if bad:
+            break
     return bool(bad), ('; '.join(bad[:4]) if bad else 'cached read history on a generated directory: every value equals the uncached truth')
 
 
